@@ -54,8 +54,14 @@ class Gen:
         elif r < 0.5:
             n = self.fresh("lab")
             self.lines.append(f"{n}:")
-            self.lines.append("@db 0")
             self.expect[n] = (self.addr, dict(self.meta))
+            if rng.random() < 0.3:
+                # a second name for the same address (both must be listed)
+                n2 = self.fresh("alias")
+                self.lines.append(f"{n2}:")
+                self.expect[n2] = (self.addr, dict(self.meta))
+                self.feat["alias"] = self.feat.get("alias", 0) + 1
+            self.lines.append("@db 0")
             self.addr += 1
             self.feat["label"] += 1
         elif r < 0.62:
@@ -250,7 +256,7 @@ def run(tier, seed):
     return chk.finish(
         checker_cmd="cd /verif/lean && lake build Az65.Thm.C20 && #print axioms audit",
         trusted_base=C.TRUSTED + ["the reference symbol/metadata table kept by the generator in checks/c20.py"],
-        rule="case = program opening / replacing / closing @meta blocks (ID over every category the exporters recognise and one they do not, BANK incl. non-hex, extra keys) around labels, @defl (incl. later-defined), @defn, @redefl, @redefn (fresh and existing names), structs, with @getmeta probes; the -g JSON, .sym or .nl export is parsed and compared as a set with the Model and with the reference table; distinct = distinct (program, format)")
+        rule="case = program opening / replacing / closing @meta blocks (ID over every category the exporters recognise and one they do not, BANK incl. non-hex, extra keys) around labels (incl. two names for one address), @defl (incl. later-defined), @defn, @redefl, @redefn (fresh and existing names), structs, with @getmeta probes; the -g JSON, .sym or .nl export is parsed and compared as a set with the Model and with the reference table; distinct = distinct (program, format)")
 
 
 replay = core.replay
